@@ -43,6 +43,8 @@ class FN:
     ends: List[Tuple[str, str]] = field(default_factory=list)
     generator: bool = False
     hints: List[str] = field(default_factory=list)   # proof hints: asserted (own obligation) then assumed
+    # ghost snapshots taken right after an assignment to the named local: {local: {ghost: expr}}
+    ghost_at_assign: Dict[str, Dict[str, str]] = field(default_factory=dict)
     inst_terms: List[str] = field(default_factory=list)  # terms at which quantified facts of the pc are instantiated
     # exceptional postconditions: (ExcName, expr over the exit state) checked at raise exits, assumed by callers
     on_raise: List[Tuple[str, str]] = field(default_factory=list)
